@@ -85,6 +85,10 @@ def _serialize_element(
                 if prop.required
             ]
         )
+        schema["properties"] = {
+            prop.source or name: prop
+            for name, prop in schema["properties"].items()
+        }
     if not schema.get("required", True):
         del schema["required"]
     if isinstance(element, CompositionElement):
